@@ -55,3 +55,48 @@ pub fn xor<const B: usize>(a: [u8; B], b: [u8; B]) -> [u8; B] {
     while i < B { r[i] ^= b[i]; i += 1; }
     r
 }
+
+/// PermCipher: an invertible toy cipher with a harness-chosen key (for round trips, clones, Debug, drop).
+/// E(x)[i] = rotl3(x[(i+1) % B]) ^ k[i]
+#[macro_export]
+macro_rules! perm_cipher {
+    ($name:ident, $bs:ty, $b:expr, $w:ty) => {
+        #[derive(Clone)]
+        pub struct $name { pub k: [u8; $b] }
+        impl $name {
+            pub fn e(&self, x: [u8; $b]) -> [u8; $b] {
+                let mut y = [0u8; $b]; let mut i = 0;
+                while i < $b { y[i] = x[(i + 1) % $b].rotate_left(3) ^ self.k[i]; i += 1; }
+                y
+            }
+            pub fn d(&self, y: [u8; $b]) -> [u8; $b] {
+                let mut x = [0u8; $b]; let mut i = 0;
+                while i < $b { x[(i + 1) % $b] = (y[i] ^ self.k[i]).rotate_right(3); i += 1; }
+                x
+            }
+        }
+        impl BlockSizeUser for $name { type BlockSize = $bs; }
+        impl ParBlocksSizeUser for $name { type ParBlocksSize = $w; }
+        impl BlockCipherEncBackend for $name {
+            fn encrypt_block(&self, mut block: InOut<'_, '_, Block<Self>>) {
+                let x: [u8; $b] = block.clone_in().into();
+                *block.get_out() = self.e(x).into();
+            }
+        }
+        impl BlockCipherDecBackend for $name {
+            fn decrypt_block(&self, mut block: InOut<'_, '_, Block<Self>>) {
+                let x: [u8; $b] = block.clone_in().into();
+                *block.get_out() = self.d(x).into();
+            }
+        }
+        impl BlockCipherEncrypt for $name {
+            fn encrypt_with_backend(&self, f: impl BlockCipherEncClosure<BlockSize = $bs>) { f.call(self) }
+        }
+        impl BlockCipherDecrypt for $name {
+            fn decrypt_with_backend(&self, f: impl BlockCipherDecClosure<BlockSize = $bs>) { f.call(self) }
+        }
+        impl cipher::AlgorithmName for $name {
+            fn write_alg_name(f: &mut core::fmt::Formatter<'_>) -> core::fmt::Result { f.write_str(stringify!($name)) }
+        }
+    };
+}
